@@ -29,6 +29,29 @@ func okGuardEarlyReturn(x int) {
 	mark()
 }
 
+// the same guard written as a tagless switch: go/ssa materialises `x < 10 && y` as a phi
+func okGuardSwitchAnd(x int, y bool) {
+	switch {
+	case x < 10 && y:
+		mark()
+	}
+}
+
+func badGuardSwitchOr(x int, y bool) {
+	switch {
+	case x < 10 || y:
+		mark()
+	}
+}
+
+func okGuardSwitchNotOr(x int, y bool) {
+	switch {
+	case x >= 10 || y:
+	default:
+		mark()
+	}
+}
+
 func badGuardOr(x int, y bool) {
 	if x < 10 || y {
 		mark()
